@@ -1,5 +1,6 @@
 use crate::engine::{DynModel, Report, Tier};
 
+pub mod aggx;
 pub mod hist;
 pub mod tsurf;
 
